@@ -35,6 +35,10 @@ func (m *Machine) valuesEqual(a, b Value) *Term {
 		return Eq(x, y)
 	case FloatV:
 		y := b.(FloatV)
+		if x.T != nil || y.T != nil {
+			xt, yt := m.floatAsInt(x), m.floatAsInt(y)
+			return Eq(xt, yt)
+		}
 		return BoolC(x.F == y.F)
 	case *StrV:
 		y, ok := b.(*StrV)
@@ -123,7 +127,10 @@ func (m *Machine) unop(fr *Frame, in *ssa.UnOp) Value {
 		case *Term:
 			return Neg(v)
 		case FloatV:
-			return FloatV{-v.F, v.W}
+			if v.T != nil {
+				return FloatV{T: Neg(v.T), W: v.W}
+			}
+			return FloatV{F: -v.F, W: v.W}
 		}
 	case token.XOR:
 		return BNot(x.(*Term))
@@ -219,11 +226,14 @@ func (m *Machine) binop(op token.Token, xt, yt types.Type, x, y Value) Value {
 		if !ok {
 			m.unsupported("float binop with %T", y)
 		}
+		if a.T != nil || b.T != nil {
+			return m.exactFloatBinop(op, a, b)
+		}
 		r := func(f float64) Value {
 			if a.W == 32 {
-				return FloatV{float64(float32(f)), 32}
+				return FloatV{F: float64(float32(f)), W: 32}
 			}
-			return FloatV{f, 64}
+			return FloatV{F: f, W: 64}
 		}
 		switch op {
 		case token.ADD:
@@ -328,6 +338,16 @@ func (m *Machine) convert(from, to types.Type, x Value) Value {
 				}
 				return ZExt(v, tw)
 			case FloatV:
+				if v.T != nil {
+					if tw <= 64 && t.Info()&types.IsUnsigned == 0 {
+						if tw == 64 {
+							return v.T
+						}
+						m.exactRange(v.T, int64(1)<<(tw-1)-1, "float to int"+itoa(tw)+" conversion")
+						return Extract(tw-1, 0, v.T)
+					}
+					m.unsupported("exact-integer float to unsigned conversion")
+				}
 				f := v.F
 				if t.Info()&types.IsUnsigned != 0 {
 					return BVC(tw, uint64(f))
@@ -343,7 +363,16 @@ func (m *Machine) convert(from, to types.Type, x Value) Value {
 			switch v := x.(type) {
 			case *Term:
 				if !v.IsConst() {
-					m.unsupported("symbolic int to float conversion")
+					_, fs := intWidth(fu)
+					if !fs || floatWidth(t) != 64 {
+						m.unsupported("symbolic unsigned int / float32 conversion")
+					}
+					w := v
+					if v.sort.W < 64 {
+						w = SExt(v, 64)
+					}
+					m.exactRange(w, exactFloatLimit, "int to float64 conversion")
+					return FloatV{T: w, W: 64}
 				}
 				_, fs := intWidth(fu)
 				var f float64
@@ -355,12 +384,12 @@ func (m *Machine) convert(from, to types.Type, x Value) Value {
 				if floatWidth(t) == 32 {
 					f = float64(float32(f))
 				}
-				return FloatV{f, floatWidth(t)}
+				return FloatV{F: f, W: floatWidth(t)}
 			case FloatV:
 				if floatWidth(t) == 32 {
-					return FloatV{float64(float32(v.F)), 32}
+					return FloatV{F: float64(float32(v.F)), W: 32}
 				}
-				return FloatV{v.F, 64}
+				return FloatV{F: v.F, W: 64}
 			}
 		case t.Info()&types.IsString != 0:
 			switch v := x.(type) {
@@ -1091,3 +1120,130 @@ func (m *Machine) typeAssert(in *ssa.TypeAssert, x Value) Value {
 }
 
 var _ = math.MaxInt64
+
+// ------------------------------------------------------------ exact-integer floats
+
+const exactFloatLimit = int64(1) << 52
+
+// exactRange demands |t| <= lim on every continuation of the current path; a path on which
+// the bound can be exceeded ends INCONCLUSIVE (the exact-integer float fragment does not
+// cover it).
+func (m *Machine) exactRange(t *Term, lim int64, what string) {
+	bad := Or(SLt(t, BVC(64, uint64(-lim))), SLt(BVC(64, uint64(lim)), t))
+	if bad.IsConst() {
+		if bad.c == 1 {
+			m.unsupported("%s outside the exact float range", what)
+		}
+		return
+	}
+	if m.branchVC(bad, "exact-float") {
+		m.unsupported("%s: magnitude may exceed %d, outside the exact-integer float fragment", what, lim)
+	}
+}
+
+func (m *Machine) floatAsInt(f FloatV) *Term {
+	if f.T != nil {
+		return f.T
+	}
+	if f.F != math.Trunc(f.F) || math.Abs(f.F) > float64(exactFloatLimit) {
+		m.unsupported("exact-integer float combined with the non-integer constant %v", f.F)
+	}
+	return BVC(64, uint64(int64(f.F)))
+}
+
+func (m *Machine) exactFloatBinop(op token.Token, a, b FloatV) Value {
+	switch op {
+	case token.MUL:
+		// one side must be an integer-valued constant
+		var t *Term
+		var c FloatV
+		switch {
+		case a.T != nil && b.T == nil:
+			t, c = a.T, b
+		case b.T != nil && a.T == nil:
+			t, c = b.T, a
+		default:
+			m.unsupported("product of two symbolic floats")
+		}
+		k := m.floatAsInt(c).SVal()
+		if k == 0 {
+			return FloatV{F: 0, W: 64}
+		}
+		ak := k
+		if ak < 0 {
+			ak = -ak
+		}
+		if ak > 1<<20 {
+			m.unsupported("exact-integer float times large constant")
+		}
+		m.exactRange(t, exactFloatLimit/ak, "float product")
+		return FloatV{T: Mul(t, BVC(64, uint64(k))), W: 64}
+	case token.ADD, token.SUB:
+		x, y := m.floatAsInt(a), m.floatAsInt(b)
+		m.exactRange(x, exactFloatLimit/2, "float sum")
+		m.exactRange(y, exactFloatLimit/2, "float sum")
+		if op == token.ADD {
+			return FloatV{T: Add(x, y), W: 64}
+		}
+		return FloatV{T: Sub(x, y), W: 64}
+	case token.LSS, token.LEQ, token.GTR, token.GEQ, token.EQL, token.NEQ:
+		// comparison with a non-integer constant c: x < c  <=>  x < ceil(c) etc.
+		x, y := a, b
+		if x.T == nil && x.F != math.Trunc(x.F) || y.T == nil && y.F != math.Trunc(y.F) {
+			return m.exactFloatCmpFrac(op, x, y)
+		}
+		xt, yt := m.floatAsInt(x), m.floatAsInt(y)
+		switch op {
+		case token.LSS:
+			return SLt(xt, yt)
+		case token.LEQ:
+			return SLe(xt, yt)
+		case token.GTR:
+			return SLt(yt, xt)
+		case token.GEQ:
+			return SLe(yt, xt)
+		case token.EQL:
+			return Eq(xt, yt)
+		case token.NEQ:
+			return Not(Eq(xt, yt))
+		}
+	}
+	m.unsupported("float operation %s on an exact-integer float", op)
+	return nil
+}
+
+// comparison of an exact-integer float with a fractional constant
+func (m *Machine) exactFloatCmpFrac(op token.Token, x, y FloatV) Value {
+	flip := false
+	if x.T == nil {
+		x, y, flip = y, x, true
+	}
+	if y.T != nil || math.Abs(y.F) > float64(exactFloatLimit) {
+		m.unsupported("float comparison outside the exact-integer fragment")
+	}
+	if flip {
+		switch op {
+		case token.LSS:
+			op = token.GTR
+		case token.LEQ:
+			op = token.GEQ
+		case token.GTR:
+			op = token.LSS
+		case token.GEQ:
+			op = token.LEQ
+		}
+	}
+	fl := BVC(64, uint64(int64(math.Floor(y.F))))
+	switch op {
+	case token.LSS, token.LEQ: // x < c <=> x <= floor(c)
+		return SLe(x.T, fl)
+	case token.GTR, token.GEQ: // x > c <=> x > floor(c)
+		return SLt(fl, x.T)
+	case token.EQL:
+		return FalseT
+	case token.NEQ:
+		return TrueT
+	}
+	m.unsupported("float comparison")
+	return nil
+}
